@@ -67,8 +67,19 @@ def checks_for(f):
 
 
 def sh(cmd, cwd=None, env=None, timeout=3600):
-    p = subprocess.run(cmd, shell=True, cwd=cwd, env=env or ENV, capture_output=True, text=True, timeout=timeout)
-    return p.returncode, p.stdout + p.stderr
+    # own session, so that a hanging test binary or check can be killed together with its children
+    p = subprocess.Popen(cmd, shell=True, cwd=cwd, env=env or ENV, stdout=subprocess.PIPE, stderr=subprocess.STDOUT, text=True, start_new_session=True)
+    try:
+        out, _ = p.communicate(timeout=timeout)
+        return p.returncode, out
+    except subprocess.TimeoutExpired:
+        import signal
+        try:
+            os.killpg(p.pid, signal.SIGKILL)
+        except ProcessLookupError:
+            pass
+        out, _ = p.communicate()
+        return 124, (out or "") + "\nTIMEOUT"
 
 
 def production_lines(path):
@@ -204,9 +215,12 @@ def main():
         sh("git checkout -q -- .", cwd=VFY)
         apply(VFY, f, i, col, old, new)
         rec["text"] = open(os.path.join(VFY, f)).read().split("\n")[i].strip()
-        rc, o = sh("cargo nextest run --workspace --no-fail-fast --offline 2>&1 | grep -E 'Summary|error(\\[|:)' | head -3", cwd=VFY)
+        rc, o = sh("cargo nextest run --workspace --no-fail-fast --offline 2>&1 | grep -E 'Summary|error(\\[|:)' | head -3", cwd=VFY, timeout=240)
         rec["suite"] = o.strip()
-        if "81 passed" not in o:
+        if rc == 124:
+            rec["status"] = "killed-by-the-repository-tests"
+            rec["suite"] = "the suite hangs (killed after 240 s)"
+        elif "81 passed" not in o:
             rec["status"] = "does-not-compile" if "error" in o and "Summary" not in o else "killed-by-the-repository-tests"
         else:
             patch = os.path.join(out, f"{ops}{n:03d}.diff")
@@ -214,7 +228,7 @@ def main():
             ids = checks_for(f)
             o = ""
             for cid in ids.split():
-                rc, oo = sh(f"./check {cid} quick 2>/dev/null", cwd=MUTVERIF, env=dict(os.environ, VERIF_DIR=MUTOUT))
+                rc, oo = sh(f"./check {cid} quick 2>/dev/null", cwd=MUTVERIF, env=dict(os.environ, VERIF_DIR=MUTOUT), timeout=900)
                 keys = " ".join(re.findall(r"^  key=(\S+)", oo, re.M))[:300]
                 o += f"{cid} rc={rc} {keys}\n"
             rec["checks_run"] = ids.split()
